@@ -1454,6 +1454,11 @@ def shrink(prop, cfg, f, known, budget=160, seconds=60):
     first = failure_of(prop, cfg, f.suite, cur, f.kind, known)
     if first is None:
         return None            # not reproducible in isolation (needs its block, e.g. post oracles): leave as it is
+    # a smaller variant must fail in the same way: cutting a state short until "the container did not validate before the operation"
+    # would turn a real failing input into one that fails on every tree
+    def msg_class(w):
+        return re.sub(r"[0-9]+|\b[0-9a-f]{2,}\b", "#", w or "")[:48]
+    cls0 = msg_class(first[2])
     progress = True
     while progress and steps < budget and time.time() - t0 < seconds:
         progress = False
@@ -1461,7 +1466,7 @@ def shrink(prop, cfg, f, known, budget=160, seconds=60):
             if steps >= budget or time.time() - t0 > seconds: break
             steps += 1
             r = failure_of(prop, cfg, f.suite, cand, f.kind, known)
-            if r is not None:
+            if r is not None and msg_class(r[2]) == cls0:
                 cur, best, progress = cand, r, True
                 break
     if best is None:
